@@ -214,3 +214,30 @@ package shell_operator
 //@   ensures [task-failed]  nTaskRuns == old(nTaskRuns) + 1 && lastTaskStatus == "Fail" ==> result1 == nil && result0 != nil && !result0.Allowed
 //@   ensures [no-response]  nTaskRuns == old(nTaskRuns) + 1 && lastTaskStatus != "Fail" && !dyntype(lastProp, *admission.Response) ==> result1 != nil
 //@   ensures [no-task]      nTaskRuns == old(nTaskRuns) ==> result1 != nil
+
+// ---- C03: tasks produced by an event go to the queue named by each task, in order -------------
+//@ pure task.Task.GetQueueName
+
+// number of tasks among ts[0..i) whose queue exists
+//@ specfn routed(ts []task.Task, qs map[string]*queue.TaskQueue, i int) int
+//@   axiom i <= 0 ==> result == 0
+//@   axiom i > 0 ==> result == routed(ts, qs, i-1) + ite(qs[ts[i-1].GetQueueName()] != nil, 1, 0)
+
+// The critical section of the events handler: every task of the event whose queue exists is
+// appended (AddLast) to the queue registered under the task's own queue name, in the order the
+// tasks were produced; nothing else is appended and no task goes to another queue.
+//@ func (*ManagerEventsHandler).Start$[tailTasks]
+//@   prop C03
+//@   requires tqs != nil && forall(j, 0, len(tailTasks), tailTasks[j] != nil)
+//@   modifies all(queue.TaskQueue.items), all(queue.TaskQueue.measureActionFn), allelems(task.Task), queue.nMut, queue.nAddLast, queue.addLastTask, queue.addLastQueue
+//@   let n0 := old(queue.nAddLast)
+//@   ensures [count]     queue.nAddLast == n0 + routed(tailTasks, tqs.Queues, len(tailTasks))
+//@   ensures [own-queue] forall(k, n0, queue.nAddLast, queue.addLastQueue[k] != nil && queue.addLastQueue[k] == tqs.Queues[queue.addLastTask[k].GetQueueName()])
+//@   ensures [in-order]  forall(j, 0, len(tailTasks), tqs.Queues[tailTasks[j].GetQueueName()] != nil ==> queue.addLastTask[n0 + routed(tailTasks, tqs.Queues, j)] == tailTasks[j])
+//@   loop 1
+//@     invariant [assumed:event-tasks-do-not-share-queue-storage] storage(tailTasks) == old(storage(tailTasks))
+//@     invariant 0 <= iter() && iter() <= len(tailTasks)
+//@     invariant queue.nAddLast == n0 + routed(tailTasks, tqs.Queues, iter())
+//@     invariant forall(j, 0, iter(), 0 <= routed(tailTasks, tqs.Queues, j) && routed(tailTasks, tqs.Queues, j) + ite(tqs.Queues[tailTasks[j].GetQueueName()] != nil, 1, 0) <= routed(tailTasks, tqs.Queues, iter()))
+//@     invariant forall(k, n0, queue.nAddLast, queue.addLastQueue[k] != nil && queue.addLastQueue[k] == tqs.Queues[queue.addLastTask[k].GetQueueName()])
+//@     invariant forall(j, 0, iter(), tqs.Queues[tailTasks[j].GetQueueName()] != nil ==> queue.addLastTask[n0 + routed(tailTasks, tqs.Queues, j)] == tailTasks[j])
